@@ -189,6 +189,21 @@ func (c *CheckCtx) runModeT(pkgRels []string, cfgs []*HarnessCfg) {
 			path := c.saveReplay(rf, n)
 			c.Replays++
 			lbl, st, out := nativeReplay(c.WorkDir, pkgRel, rf, path)
+			if st != "violated" && cfg.EngineReplay {
+				// schedules / crash points / injected faults cannot be forced on the native build without
+				// instrumentation: confirm on the real code's SSA by concrete re-execution with the model
+				ccfg := *cfg
+				ccfg.Concrete = v.Vec
+				ccfg.Cross = ""
+				cres := runHarness(in, &ccfg, 1)
+				for _, cv := range cres.Violations {
+					if cv.Label == v.Label {
+						st, lbl = "violated", v.Label+" (confirmed by concrete re-execution of the SSA; native run: "+st+")"
+						c.Extra["engine_replays"] = fmt.Sprint(c.Extra["engine_replays"]) + " " + v.Label
+						break
+					}
+				}
+			}
 			if st == "violated" {
 				c.Reproduced++
 				repro[v.Label] = true
